@@ -25,7 +25,7 @@ func switchAssignTable(fd *ast.FuncDecl, tag string) (res [][2]string, node ast.
 	}
 	ast.Inspect(fd, func(n ast.Node) bool {
 		sw, ok := n.(*ast.SwitchStmt)
-		if !ok || sw.Tag == nil || exprText(sw.Tag) != tag || res != nil {
+		if !ok || sw.Tag == nil || res != nil || (exprText(sw.Tag) != tag && canonRef(fd, sw.Tag) != tag) {
 			return true
 		}
 		node = sw
@@ -33,8 +33,8 @@ func switchAssignTable(fd *ast.FuncDecl, tag string) (res [][2]string, node ast.
 			cc := c.(*ast.CaseClause)
 			rhs := "<other>"
 			if len(cc.Body) == 1 {
-				if as, ok := cc.Body[0].(*ast.AssignStmt); ok && len(as.Rhs) == 1 {
-					rhs = exprText(as.Rhs[0])
+				if as, ok := cc.Body[0].(*ast.AssignStmt); ok && len(as.Rhs) >= 1 && len(as.Rhs) == len(as.Lhs) {
+					rhs = exprText(as.Rhs[0]) // `x = V`, or `x, ok = V, true` (a helper's `return V, true` after inlining)
 				} else if rs, ok := cc.Body[0].(*ast.ReturnStmt); ok && len(rs.Results) >= 1 {
 					rhs = exprText(rs.Results[0])
 				}
@@ -54,6 +54,44 @@ func switchAssignTable(fd *ast.FuncDecl, tag string) (res [][2]string, node ast.
 		return false
 	})
 	return res, node
+}
+
+// canonRef: an expression with the local names that are defined once by `x := <plain reference>` replaced by what they stand for
+// (matcher := parts[0][3]  and  operator := groups[3] under groups := parts[0]  both read parts[0][3])
+func canonRef(fd *ast.FuncDecl, e ast.Expr) string {
+	defs := map[string]ast.Expr{}
+	count := map[string]int{}
+	ast.Inspect(fd, func(n ast.Node) bool {
+		if as, ok := n.(*ast.AssignStmt); ok && len(as.Lhs) == len(as.Rhs) {
+			for i, l := range as.Lhs {
+				if id, ok := l.(*ast.Ident); ok {
+					count[id.Name]++
+					if as.Tok.String() == ":=" && simpleRef(as.Rhs[i]) {
+						defs[id.Name] = as.Rhs[i]
+					}
+				}
+			}
+		}
+		return true
+	})
+	var canon func(e ast.Expr, depth int) string
+	canon = func(e ast.Expr, depth int) string {
+		switch x := e.(type) {
+		case *ast.Ident:
+			if d, ok := defs[x.Name]; ok && count[x.Name] == 1 && depth < 6 {
+				return canon(d, depth+1)
+			}
+			return x.Name
+		case *ast.SelectorExpr:
+			return canon(x.X, depth) + "." + x.Sel.Name
+		case *ast.IndexExpr:
+			return canon(x.X, depth) + "[" + canon(x.Index, depth) + "]"
+		case *ast.ParenExpr:
+			return canon(x.X, depth)
+		}
+		return exprText(e)
+	}
+	return canon(e, 0)
 }
 
 func genRegexes() {
